@@ -817,6 +817,7 @@ func (bf *branchFacts) knownOnEdge(p, b *ssa.BasicBlock, v ssa.Value, truth bool
 // conditions do not multiply them. Back edges are not followed.
 type atomPaths struct {
 	isAtom func(ssa.Value) bool
+	name   func(ssa.Value) string // optional: logical name of an atom (several comparisons, one role)
 	start  *ssa.BasicBlock // nil: function entry
 	memo   map[*ssa.BasicBlock]map[string]bool
 	stack  map[*ssa.BasicBlock]bool
@@ -841,29 +842,178 @@ func joinAlt(a, k string) string {
 	return strings.Join(parts, ";")
 }
 
+func (ap *atomPaths) atomName(v ssa.Value) string {
+	if ap.name != nil {
+		if n := ap.name(v); n != "" {
+			return n
+		}
+	}
+	return v.Name()
+}
+
 func (ap *atomPaths) edgeAtom(p, b *ssa.BasicBlock) string {
+	k, _ := ap.edgeAtomVia(p, b, -1)
+	return k
+}
+
+// edgeAtomVia: the atom outcome established by taking p→b when p was entered through its
+// predecessor number via (-1: unknown). A condition that is a φ of booleans in p is resolved on
+// that incoming edge: a constant decides whether the edge p→b is feasible at all, an atom adds its
+// outcome. feasible=false means this combination cannot happen.
+func (ap *atomPaths) edgeAtomVia(p, b *ssa.BasicBlock, via int) (atom string, feasible bool) {
 	if len(p.Instrs) == 0 {
-		return ""
+		return "", true
 	}
 	ifi, ok := p.Instrs[len(p.Instrs)-1].(*ssa.If)
 	if !ok || p.Succs[0] == p.Succs[1] {
-		return ""
+		return "", true
 	}
 	cond, truth := ifi.Cond, p.Succs[0] == b
-	for {
-		u, ok := cond.(*ssa.UnOp)
-		if !ok || u.Op != token.NOT {
-			break
+	for depth := 0; depth < 8; depth++ {
+		if u, ok := cond.(*ssa.UnOp); ok && u.Op == token.NOT {
+			cond, truth = u.X, !truth
+			continue
 		}
-		cond, truth = u.X, !truth
+		if phi, ok := cond.(*ssa.Phi); ok && phi.Block() == p && via >= 0 && via < len(phi.Edges) {
+			cond = phi.Edges[via]
+			continue
+		}
+		break
+	}
+	if k, ok := cond.(*ssa.Const); ok && k.Value != nil && k.Value.Kind() == constant.Bool {
+		return "", constant.BoolVal(k.Value) == truth
 	}
 	if !ap.isAtom(cond) {
-		return ""
+		return "", true
 	}
 	if truth {
-		return cond.Name() + "=T"
+		return ap.atomName(cond) + "=T", true
 	}
-	return cond.Name() + "=F"
+	return ap.atomName(cond) + "=F", true
+}
+
+// resolveCond: the outcome of taking the edge p→b for a path of class a. Returns the class
+// extended by what the edge establishes, and whether the edge is feasible for that class.
+// A condition that is a boolean φ is looked up in the class (see phiBindings).
+func (ap *atomPaths) resolveCond(p, b *ssa.BasicBlock, a string) (string, bool) {
+	if len(p.Instrs) == 0 {
+		return a, true
+	}
+	ifi, ok := p.Instrs[len(p.Instrs)-1].(*ssa.If)
+	if !ok || p.Succs[0] == p.Succs[1] {
+		return a, true
+	}
+	cond, truth := ifi.Cond, p.Succs[0] == b
+	for depth := 0; depth < 8; depth++ {
+		if u, ok := cond.(*ssa.UnOp); ok && u.Op == token.NOT {
+			cond, truth = u.X, !truth
+			continue
+		}
+		if phi, ok := cond.(*ssa.Phi); ok {
+			// bound on this path?
+			pre := phi.Name()
+			found := false
+			if a != "" {
+				for _, part := range strings.Split(a, ";") {
+					if strings.HasPrefix(part, pre+"=") {
+						return a, (part[len(part)-1] == 'T') == truth
+					}
+					if strings.HasPrefix(part, pre+"@") {
+						// alias: φ equals (T) or is the negation of (F) the named atom
+						atom := part[len(pre)+1 : len(part)-2]
+						same := part[len(part)-1] == 'T'
+						t := truth == same
+						k := atom + "=F"
+						if t {
+							k = atom + "=T"
+						}
+						na := joinAlt(a, k)
+						return na, !contradictory(na)
+					}
+				}
+			}
+			if !found {
+				return a, true
+			}
+		}
+		break
+	}
+	if k, ok := cond.(*ssa.Const); ok && k.Value != nil && k.Value.Kind() == constant.Bool {
+		return a, constant.BoolVal(k.Value) == truth
+	}
+	if !ap.isAtom(cond) {
+		return a, true
+	}
+	k := ap.atomName(cond) + "=F"
+	if truth {
+		k = ap.atomName(cond) + "=T"
+	}
+	na := joinAlt(a, k)
+	return na, !contradictory(na)
+}
+
+// phiBindings records, for a path of class a entering b through predecessor number via, what the
+// boolean φ-nodes of b are on that path: a constant ("t7=T"), or an atom or its negation
+// ("t7@G=T" / "t7@G=F"), or another φ already bound in the class.
+func (ap *atomPaths) phiBindings(b *ssa.BasicBlock, via int, a string) string {
+	for _, in := range b.Instrs {
+		phi, ok := in.(*ssa.Phi)
+		if !ok {
+			break
+		}
+		if bt, isB := phi.Type().Underlying().(*types.Basic); !isB || bt.Kind() != types.Bool || via >= len(phi.Edges) {
+			continue
+		}
+		e, neg := phi.Edges[via], false
+		for {
+			u, ok := e.(*ssa.UnOp)
+			if !ok || u.Op != token.NOT {
+				break
+			}
+			e, neg = u.X, !neg
+		}
+		tf := func(t bool) string {
+			if t {
+				return "T"
+			}
+			return "F"
+		}
+		switch x := e.(type) {
+		case *ssa.Const:
+			if x.Value != nil && x.Value.Kind() == constant.Bool {
+				a = joinAlt(a, phi.Name()+"="+tf(constant.BoolVal(x.Value) != neg))
+			}
+		case *ssa.Phi:
+			if a != "" {
+				for _, part := range strings.Split(a, ";") {
+					if strings.HasPrefix(part, x.Name()+"=") {
+						a = joinAlt(a, phi.Name()+"="+tf((part[len(part)-1] == 'T') != neg))
+					} else if strings.HasPrefix(part, x.Name()+"@") {
+						atom := part[len(x.Name())+1 : len(part)-2]
+						a = joinAlt(a, phi.Name()+"@"+atom+"="+tf((part[len(part)-1] == 'T') != neg))
+					}
+				}
+			}
+		default:
+			if ap.isAtom(e) {
+				// the atom's own value on this path may already be known
+				n := ap.atomName(e)
+				known := false
+				if a != "" {
+					for _, part := range strings.Split(a, ";") {
+						if part == n+"=T" || part == n+"=F" {
+							a = joinAlt(a, phi.Name()+"="+tf((part[len(part)-1] == 'T') != neg))
+							known = true
+						}
+					}
+				}
+				if !known {
+					a = joinAlt(a, phi.Name()+"@"+n+"="+tf(!neg))
+				}
+			}
+		}
+	}
+	return a
 }
 
 func (ap *atomPaths) at(b *ssa.BasicBlock) map[string]bool {
@@ -879,17 +1029,17 @@ func (ap *atomPaths) at(b *ssa.BasicBlock) map[string]bool {
 		out[""] = true
 	}
 	if b != ap.start {
-		for _, p := range b.Preds {
+		for via, p := range b.Preds {
 			if b.Dominates(p) {
 				continue // back edge
 			}
-			k := ap.edgeAtom(p, b)
 			for a := range ap.at(p) {
-				if k == "" {
-					out[a] = true
-				} else {
-					out[joinAlt(a, k)] = true
+				na, feasible := ap.resolveCond(p, b, a)
+				if !feasible {
+					continue
 				}
+				na = ap.phiBindings(b, via, na)
+				out[na] = true
 			}
 		}
 	}
@@ -901,6 +1051,64 @@ func (ap *atomPaths) at(b *ssa.BasicBlock) map[string]bool {
 func altHas(a, k string) bool {
 	for _, p := range strings.Split(a, ";") {
 		if p == k {
+			return true
+		}
+	}
+	return false
+}
+
+// hasPhiCond: the block ends in an If whose condition is (the negation of) a φ of the same block.
+func (ap *atomPaths) hasPhiCond(p *ssa.BasicBlock) bool {
+	if len(p.Instrs) == 0 {
+		return false
+	}
+	ifi, ok := p.Instrs[len(p.Instrs)-1].(*ssa.If)
+	if !ok {
+		return false
+	}
+	cond := ifi.Cond
+	for {
+		u, ok := cond.(*ssa.UnOp)
+		if !ok || u.Op != token.NOT {
+			break
+		}
+		cond = u.X
+	}
+	phi, ok := cond.(*ssa.Phi)
+	return ok && phi.Block() == p
+}
+
+// contradictory: the class requires some atom to be both true and false.
+func contradictory(a string) bool {
+	if a == "" {
+		return false
+	}
+	seen := map[string]byte{}
+	for _, p := range strings.Split(a, ";") {
+		n, t := p[:len(p)-2], p[len(p)-1]
+		if o, ok := seen[n]; ok && o != t {
+			return true
+		}
+		seen[n] = t
+	}
+	return false
+}
+
+// reachableUnder: does some class of the set agree with the assignment (atoms the class does not
+// mention are free)?
+func reachableUnder(alts map[string]bool, sigma map[string]bool) bool {
+	for a := range alts {
+		ok := true
+		if a != "" {
+			for _, p := range strings.Split(a, ";") {
+				n, t := p[:len(p)-2], p[len(p)-1] == 'T'
+				if v, has := sigma[n]; has && v != t {
+					ok = false
+					break
+				}
+			}
+		}
+		if ok {
 			return true
 		}
 	}
